@@ -545,16 +545,14 @@ def drop_blank_lines(lines):
 
 def reference_intervals(doc, ruby="base", snapshot=None, change_times=None):
   """-> [{"begin": Fraction, "end": Fraction|None, "regions": [(region id, line form)]}] for every interval between two
-  successive change times (the last one is unbounded), in order, blank or not ("bodies": number of regions with content); None when the document has a ruby
-  with an inactive part at some time (outside the statement)"""
+  successive change times (the last one is unbounded), in order, blank or not ("bodies": number of regions with content).  A ruby with a part that is not
+  presented (inactive, empty, flowed elsewhere) contributes the text of the parts that are."""
   from specs import isd as S
   snapshot = snapshot or S.snapshot
   cts = (change_times or S.change_times)(doc)
   out = []
   for k, c in enumerate(cts):
     regions, flags = snapshot(doc, c)
-    if flags.get("ruby_pattern_broken"):
-      return None
     end = cts[k + 1] if k + 1 < len(cts) else None
     out.append({"begin": c, "end": end, "regions": [(rid, line_form(region_tokens(node, ruby))) for rid, node in regions.items()],
                 "bodies": sum(1 for node in regions.values() if node[2])})
